@@ -1,4 +1,5 @@
 import ClusterVerif.Model.C16
+import ClusterVerif.Model.C16Aux
 /-!
 # C16 — the property, clause by clause, over what a run *shows*
 
@@ -35,12 +36,14 @@ def refuses (t : Table) : Req → Bool
 
 /-- a daemon or transport failure of a request that decides the outcome.
 `pin/ls` of the CID itself: only a reply that is no answer at all counts (an
-IPFS error object is how the daemon says "not pinned"); `pin/ls` of the update
+IPFS error object is how the daemon says "not pinned"), or a 200 reply that does
+not list a pin the daemon holds (cut off, empty, garbage); `pin/ls` of the update
 source and `swarm/connect` are advisory; the not-pinned reply to `pin/rm` is the
 case the property names as success. -/
 def failure (i : Input) (k : Nat) (r : Req) (c : Cls) : Bool :=
   match r with
-  | .ls x tr => k == 0 && (c == .hardFail || c == .stall || (c == .lostReply && i.table x == (if tr then .r else .d)))
+  | .ls x tr => k == 0 && (c == .hardFail || c == .stall ||
+      ((c == .lostReply || c == .badBody) && i.table x == (if tr then .r else .d)))
   | .add .. | .upd .. =>
     c == .ipfsErr || c == .notPinned || c == .hardFail || c == .lostReply || c == .stall ||
       c == .noProgress || c == .streamErr || ((c == .honest || c == .slowOk) && refuses i.table r)
@@ -132,10 +135,53 @@ def holds (i : Input) (o : Output) : Bool := (clauses i o).all (·.2)
 /-- Domain of the quantifier: the CIDs are in the universe; the daemon does not
 lie (it says "not pinned" to `pin/rm` only for a CID it does not hold); and the
 pin is not self-contradictory (`Mode` recursive with `MaxDepth` 0 — no
-constructor of `api.Pin` produces it) when it has an update source. -/
+constructor of `api.Pin` produces it) when it has an update source; nor is a depth-0 pin with an
+update source looked up at a daemon that lists pins whatever `type=` filter was asked (go-ipfs
+honours the filter; see `filter_ignoring_source_breaks_direct_update` in Props). -/
 def wf (i : Input) : Bool :=
   i.cid < i.n &&
-  (match i.src with | some s => s < i.n && !(i.modeRec && i.depth == 0) | none => true) &&
+  (match i.src with
+   | some s => s < i.n && !(i.modeRec && i.depth == 0) &&
+       !(i.op == .pin && i.depth == 0 && clsFirst (i.beh 1) == .honestAny)
+   | none => true) &&
   !(i.op == .unpin && clsAt false (i.beh 0) == .notPinned && held (i.table i.cid))
+
+/-! ### the rest of the connector (one request each) -/
+namespace Aux
+
+/-- success is reported only for a reply the daemon sent as a success and that arrived completely:
+daemon failures (any status but 200, whatever the body says) and transport failures are errors -/
+def cSuccessSound (i : In) (r : Res) : Bool :=
+  !r.isOk || (i.beh.status == 200 && i.beh.transport == .full)
+
+/-- Resolve hands back the CID the daemon named, never something else -/
+def cResolveCid (i : In) (r : Res) : Bool :=
+  match r with
+  | .ok a _ => !(i.op == .resolve) || a == 1
+  | _ => true
+
+/-- RepoGC keeps the per-key errors the daemon streamed -/
+def cGcErrorsKept (i : In) (r : Res) : Bool :=
+  match r with
+  | .ok a b => !(i.op == .repoGC && i.beh.body == .expected && i.variant % 3 == 1) || (a == 2 && b == 1)
+  | _ => true
+
+/-- a well-formed success reply is reported as a success -/
+def cGoodReplyOk (i : In) (r : Res) : Bool :=
+  !(i.beh.status == 200 && i.beh.transport == .full && i.beh.body == .expected &&
+      (i.op == .blockGet || i.op == .blockPut || i.op == .resolve || i.op == .repoGC)) || r.isOk
+
+def cReturns (r : Res) : Bool := r != .hang && r != .panic && r != .errctx
+
+def clauses (i : In) (r : Res) : List (String × Bool) :=
+  [ ("aux_success_sound", cSuccessSound i r),
+    ("aux_resolve_cid", cResolveCid i r),
+    ("aux_gc_errors_kept", cGcErrorsKept i r),
+    ("aux_good_reply_ok", cGoodReplyOk i r),
+    ("aux_returns", cReturns r) ]
+
+def holds (i : In) (r : Res) : Bool := (clauses i r).all (·.2)
+
+end Aux
 
 end CV.C16
